@@ -21,6 +21,9 @@ pub const FAULTS: &[&str] = &[
     "wrong_incident", "isolated_vertex", "clear_neighbors", "extra_cell_pinch", "disconnect", "swap_neighbors",
 ];
 
+/// legal variations of a valid complex
+pub const BENIGN: &[&str] = &["unset_incident", "unset_first_incident"];
+
 fn cell_keys<const D: usize>(t: &T<D>) -> Vec<CellKey> { t.cells().map(|(k, _)| k).collect() }
 fn vert_keys<const D: usize>(t: &T<D>) -> Vec<VertexKey> { t.vertices().map(|(k, _)| k).collect() }
 
@@ -115,9 +118,17 @@ pub fn inject<const D: usize>(t: &mut T<D>, fault: &str, rng: &mut Rng) -> bool 
             t.get_vertex_by_key_mut(vk).unwrap().incident_cell = Some(ghost);
             true
         }
+        "unset_incident" | "unset_first_incident" => {
+            // benign variation: an unset incident pointer is legal at Level 2
+            let vk = if fault == "unset_first_incident" { vks[0] } else { *rng.pick(&vks) };
+            t.get_vertex_by_key_mut(vk).unwrap().incident_cell = None;
+            true
+        }
         "wrong_incident" => {
             // point a vertex at a live cell that does not contain it
-            for &vk in &vks {
+            let mut order = vks.clone();
+            rng.shuffle(&mut order);
+            for &vk in &order {
                 if let Some(&other) = cks.iter().find(|&&k| !t.get_cell(k).unwrap().vertices().contains(&vk)) {
                     t.get_vertex_by_key_mut(vk).unwrap().incident_cell = Some(other);
                     return true;
@@ -204,6 +215,17 @@ fn run_d<const D: usize>(cfg: &Cfg, rng: &mut Rng, out: &mut Out) {
                 n += 1;
                 emit::<D>(&format!("s{D}_{bi}_{f}_{r}"), base, *g, &[f], rng, out, fam);
             }
+        }
+        // a benign variation (legal state, different path through the validators) before each fault
+        for f in &FAULTS[1..] {
+            for b in BENIGN {
+                n += 1;
+                emit::<D>(&format!("b{D}_{bi}_{b}_{f}"), base, *g, &[b, f], rng, out, fam);
+            }
+        }
+        for b in BENIGN {
+            n += 1;
+            emit::<D>(&format!("b{D}_{bi}_{b}"), base, *g, &[b], rng, out, fam);
         }
         // pairs of faults on small instances
         if base.number_of_cells() <= 6 || thorough {
